@@ -128,11 +128,11 @@ func (df *DataFile) WriteStagedLogRecord(logRecord *LogRecord, header []byte) {
 
 func (df *DataFile) FlushStaged() ([]*DataPos, error) {
 	dataPos, err := df.writeAll(df.bufferedWrites)
+	// 无论写入是否成功都清空暂存数据: writeAll 已归还缓冲区, 保留列表会使下一次刷新写出过期记录
+	df.bufferedWrites = df.bufferedWrites[:0]
 	if err != nil {
 		return nil, err
 	}
-	// 清空暂存数据
-	df.bufferedWrites = df.bufferedWrites[:0]
 	return dataPos, nil
 }
 
